@@ -411,7 +411,7 @@ class PanicAnalysis:
             return None
         for rule in (self._supp_rule, self._select_rule, self._peer_rule, self._exh_rule, self._ser_rule,
                      self._const_rule, self._guard_rule, self._bound_rule, self._env_rule, self._prologue_rule,
-                     self._auth_rule):
+                     self._round_rule, self._auth_rule):
             if rule in (self._select_rule, self._peer_rule):
                 r = rule(s, actor_status)
             else:
@@ -421,8 +421,32 @@ class PanicAnalysis:
         return None
 
     # ---- keyed suppressions (one symbol wide)
+    @staticmethod
+    def _owner(path):
+        """`a::b::Type::method` -> `a::b::Type` ; `<T as Trait>::m` -> `<T as Trait>`."""
+        return path.rsplit("::", 1)[0] if "::" in path else path
+
+    def _table_lookup(self, table, s):
+        """Exact (function, site) match, else (owner type/module, site) when that site signature is unique among the
+        owner's sites: a table row survives renaming the method it sits in, but never widens to a second site."""
+        e = table.get((s.root, s.sig))
+        if e is not None:
+            return e
+        own = self._owner(s.root)
+        cands = [v for (fn_, sig_), v in table.items() if sig_ == s.sig and self._owner(fn_) == own]
+        if len(cands) != 1:
+            return None
+        same = [x for x in self.sites if x.sig == s.sig and self._owner(x.root) == own]
+        if len(same) != 1:
+            return None
+        # the row's own function must not exist any more (otherwise the row belongs to that function)
+        fn_ = next(k[0] for k, v in table.items() if v is cands[0])
+        if fn_ in self.prog.fns:
+            return None
+        return cands[0]
+
     def _supp_rule(self, s):
-        e = self.suppressions().get((s.root, s.sig))
+        e = self._table_lookup(self.suppressions(), s)
         if e:
             e["_used"] = True
             return ("ENV" if e.get("class", "ENV") == "ENV" else e["class"], "suppressed: " + e["reason"])
@@ -1228,6 +1252,54 @@ class PanicAnalysis:
                         return False
         return True
 
+    # ---- AUTH(rounds): `<round> + 1` where the operand is a round of a consensus message / of Core
+    ROUND_REQUIRES = ("C10.P1", "C10.P2", "C04.S1", "C04.S2", "C03.V5", "C03.V6", "C05.K3", "C05.K4", "C05.K5", "C07.Y4")
+
+    def _is_round_term(self, f, n, depth=0):
+        """n denotes a consensus round: a `.round` field of a consensus message or of Core, a local bound to one, or a
+        parameter every caller of which passes one."""
+        if depth > 4:
+            return False
+        ctx = self.env.ctx(f)
+        while n["k"] in ("ref", "cast") or (n["k"] == "un" and n.get("op") == "*") or (n["k"] == "mcall" and n["name"] == "clone"):
+            n = n["e"] if n["k"] != "mcall" else n["recv"]
+        if n["k"] == "field" and n["name"] in ("round", "last_committed_round") and str(n.get("of", "")).startswith("consensus::"):
+            return True
+        if n["k"] == "var":
+            d = ctx.defs.get(n["id"])
+            if d and d[0][0] == "expr" and not d[1]:
+                return self._is_round_term(f, d[0][1], depth + 1)
+            if d and d[0][0] == "param":
+                idx = next((i for i, p in enumerate(f.params) if p.get("k") == "pbind" and p.get("id") == n["id"]), None)
+                sites = [(g, c) for (g, c) in self.prog.calls_to(f.path) if not g.derived]
+                if idx is None or not sites:
+                    return False
+                for (g, c) in sites:
+                    args = call_args(c)
+                    if idx >= len(args) or not self._is_round_term(g, args[idx], depth + 1):
+                        return False
+                return True
+        return False
+
+    def _round_rule(self, s):
+        n = s.node
+        if s.kind != "assert" or s.what != "Overflow(Add)" or n["k"] != "bin":
+            return None
+        ops = [n["l"], n["r"]]
+        lit = [o for o in ops if o["k"] == "lit" and (o.get("v") or {}).get("int") == 1]
+        oth = [o for o in ops if o not in lit]
+        if len(lit) != 1 or len(oth) != 1 or peel_ty(oth[0].get("ty") or "") != "u64":
+            return None
+        if not self._is_round_term(s.fn, oth[0]):
+            return None
+        failed = [r for r in self.ROUND_REQUIRES if not self.auth_status.get(r, False)]
+        if failed:
+            s.detail = "round + 1: rounds are authenticated by %s, but %s do not pass on this tree" % (list(self.ROUND_REQUIRES), failed)
+            return None
+        return ("AUTH", "round + 1 where the round belongs to a verified/assembled certificate, a block that passed verify, or Core's own "
+                        "pacemaker state: a certified round needs f+1 honest signers who only sign their current round, and an honest "
+                        "round grows by one per certificate - 2^64 is unreachable [valid while %s pass]" % ", ".join(self.ROUND_REQUIRES))
+
     # ---- AUTH: operand authenticated by another property's rule (table in rules/auth.toml)
     def _auth_rule(self, s):
         p = os.path.join(VERIF, "rules", "auth.toml")
@@ -1237,7 +1309,7 @@ class PanicAnalysis:
                 with open(p, "rb") as fh:
                     for e in tomllib.load(fh).get("auth", []):
                         self._auth[(e["function"], e["site"])] = e
-        e = self._auth.get((s.root, s.sig))
+        e = self._table_lookup(self._auth, s)
         if not e:
             return None
         e["_used"] = True
